@@ -198,6 +198,30 @@ def zst_stream(rng, pid):
     return cases
 
 
+def wrapper_droppanic_stream(rng, pid):
+    """IMPL-ONLY (outside the model): the destructor of an element owned by the wrapper's machinery panics -- a stale slot of a
+    reused buffer being overwritten inside the critical section, an unconsumed chunk rest, a dropped buffered iterator.
+    Judged by the monitors only (nobody hangs, nothing is delivered twice, every element is moved out or dropped once)."""
+    cases = []
+    i = 0
+    progs = [[["bufnew 2", "bufnext 1", "bufnext all", "next"], ["next", "next"]],
+             [["bufnew 3", "bufnext 0", "bufnext 1", "bufnext all"], ["chunk 2 all", "next"]],
+             [["chunk 3 1", "next"], ["next", "next"]], [["bufnew 3", "bufnext 0", "bufdrop", "next"], ["next"]],
+             [["bufnew 2", "bufnext 0", "bufnew 2", "bufnext all"], ["foreach 1"]], [["chunk 4 nth:1", "next"], ["fold 2"]]]
+    for pr in progs:
+        for k in range(0, 4):
+            for rep in range(6):
+                c = make_source(rng, "%s-wdp%d" % (pid, i), "iter", 7, hint=rng.choice(["exact", "inexact"]))
+                c.threads = [list(t) for t in pr]
+                c.droppanic = k
+                c.owner = rng.choice(["drop", "intoseq all", "intoseq 1"])
+                c.sched = rand_sched(rng, 2, 30)
+                c.tags = {"implonly"}
+                cases.append(c)
+                i += 1
+    return cases
+
+
 def inflight_stream(rng, pid, tier):
     """a buffered (or chunk) pull in flight inside the wrapped `next()` while another thread skips, sees the end reported and
     keeps pulling / querying: every schedule prefix"""
@@ -451,7 +475,7 @@ def stream_for0(pid, tier, seed):
             for b in bases:
                 b.script = b.script[:k] + ["P"] + b.script[k:]
             cases += exhaustive("C09-px%d" % k, bases, 2, 7 if not big else 10)
-        cases += huge_chunk_stream(rng, pid)
+        cases += huge_chunk_stream(rng, pid) + wrapper_droppanic_stream(rng, pid)
         return cases
     if pid == "C10":
         return defects + pulls_stream(rng, tier, pid, prof=dict(skip=True, owners=["intoseq all", "intoseq 1", "intoseq 2", "intoseq 0"]), exh=False, n_random=2000 if not big else 80000) + liar_stream(rng, pid) + zst_stream(rng, pid)
@@ -506,7 +530,7 @@ def stream_for0(pid, tier, seed):
                     if op.split()[0] in ("foreach", "enumforeach") and rng.random() < 0.5:
                         t[j] = op + " panic=%d" % rng.randint(0, 4)
             cases.append(c)
-        cases += droppanic_stream(rng, tier, pid)
+        cases += droppanic_stream(rng, tier, pid) + wrapper_droppanic_stream(rng, pid)
         return cases
     if pid == "C19":
         return multi_stream(rng, tier)
